@@ -17,8 +17,8 @@ def panosBlocks : List (Sess × Cls) := [
    .ite .err "err != nil" (.ret .keep ["err"]) .skip ;;
    xmlUnmarshal ;;
    .ite .err "err != nil" (.ret .keep ["err"]) .skip ;;
-   .ite (.flag .pend) "¬$new.Result != \"PEND\"" .cont
-     (.ite (.flag .jobOk) "¬$new.Result != \"OK\"" (.ret .nil ["nil"]) (.ret .err ["_"])), .A),
+   .ite (.flag .pend) "¬$v.Result != \"PEND\"" .cont
+     (.ite (.flag .jobOk) "¬$v.Result != \"OK\"" (.ret .nil ["nil"]) (.ret .err ["_"])), .A),
   (panosGetAPIKeyBody, .A),
   (panosCheckHABody, .A),
   (panosHttpPrefixGetLog .read (.lit "get config") panosConfigLits ;;
